@@ -101,3 +101,58 @@ Proof.
   cbn [bind]. destruct (merge_files_ops files next) as [ops nx]. cbn [fst snd].
   destruct (cli_inputs fmts fs skip r nx _) as [[ops' fmt'']|]; reflexivity.
 Qed.
+
+(* ---- the depth bound of the model is never what ends a load ----
+   load_chain recurses on fuel; the real loadFileAndParents has no such bound and relies on its cycle check alone.
+   The chain holds distinct names of the directory, so a fuel above the number of names is never used up: the
+   result does not depend on it. (With link targets in the chain instead of requested paths - the code before fix
+   1453be7 - this is false: a.yaml -> a.x.yaml recursed forever.) *)
+Lemma fs_lookup_In fs n x : fs_lookup fs n = Some x -> In n (map fst fs).
+Proof.
+  induction fs as [|[k y] r IH]; cbn; [discriminate|]. destruct (String.eqb k n) eqn:E.
+  - apply String.eqb_eq in E. now left.
+  - intro H. right. now apply IH.
+Qed.
+
+Lemma resolve_In fuel fs n r : resolve fuel fs n = Some r -> In n (map fst fs).
+Proof.
+  destruct fuel as [|f]; cbn; [discriminate|]. destruct (fs_lookup fs n) as [x|] eqn:E; [|discriminate].
+  intros _. now apply fs_lookup_In in E.
+Qed.
+
+Lemma map_res_ext_in {A B} (f g : A -> res B) l : (forall x, In x l -> f x = g x) -> map_res f l = map_res g l.
+Proof.
+  induction l as [|x l IH]; intro H; [reflexivity|]. cbn [map_res]. rewrite (H x (or_introl eq_refl)).
+  rewrite IH; [reflexivity|]. intros y Hy. apply H. now right.
+Qed.
+
+Theorem load_fuel_irrelevant fmts fs : forall f1 f2 path cid chain,
+  NoDup chain -> incl chain (map fst fs) ->
+  List.length (map fst fs) < f1 + List.length chain -> List.length (map fst fs) < f2 + List.length chain ->
+  load_chain f1 fmts fs path cid chain = load_chain f2 fmts fs path cid chain.
+Proof.
+  induction f1 as [|f1 IH]; intros f2 path cid chain ND Hin H1 H2.
+  - exfalso. pose proof (NoDup_incl_length ND Hin). cbn in H1. lia.
+  - destruct f2 as [|f2]; [exfalso; pose proof (NoDup_incl_length ND Hin); cbn in H2; lia|].
+    cbn [load_chain]. destruct (existsb (String.eqb path) chain) eqn:Ec; [reflexivity|].
+    destruct (negb (supported fmts (ext path))); [reflexivity|].
+    destruct (resolve (link_fuel fs) fs path) as [[real [docs|e]]|] eqn:Er; try reflexivity.
+    destruct (parents_of fmts fs path docs) as [[[docs' ps] real']|e]; [|reflexivity]. cbn [bind].
+    assert (Hnot : ~ In path chain).
+    { intro Hp. assert (existsb (String.eqb path) chain = true) as Ht; [|congruence].
+      apply existsb_exists. exists path. split; [exact Hp|apply String.eqb_refl]. }
+    rewrite (map_res_ext_in _ (fun p => load_chain f2 fmts fs p
+               (Some match cid with Some c => (c ++ "|" ++ path)%string | None => path end) (path :: chain)) ps); [reflexivity|].
+    intros p _. apply IH.
+    + now constructor.
+    + intros x [Hx|Hx]; [subst x; eapply resolve_In; exact Er|now apply Hin].
+    + cbn [List.length]. lia.
+    + cbn [List.length]. lia.
+Qed.
+
+(* in particular the fuel the CLI model uses (2 + number of directory entries) is as good as any larger one *)
+Corollary load_fuel_enough fmts fs path cid k :
+  load_chain (2 + List.length fs) fmts fs path cid [] = load_chain (2 + List.length fs + k) fmts fs path cid [].
+Proof.
+  apply load_fuel_irrelevant; [constructor|intros x []| |]; rewrite map_length; cbn [List.length]; lia.
+Qed.
